@@ -41,7 +41,9 @@ def jobs(tier, asan):
 def sys_jobs(hs, tier):
     q = tier == "quick"
     sj = [wmmlib.sys_job(hs, "sys", 0, 2, "l1,R0"), wmmlib.sys_job(hs, "sys", 0, 2, "l1,l2,R0"), wmmlib.sys_job(hs, "sys", 0, 1, "l1,B0,c0,l2"),
-          wmmlib.sys_job(hs, "sys", 0, 2, "l1,B0,c0,l2,B1"), wmmlib.sys_job(hs, "sys", 0, 2, "R0", "l1,R0"), wmmlib.sys_job(hs, "sys", 0, 3, "R0", "R0"), wmmlib.sys_job(hs, "sys", 0, 2, "l1,B0,x0")]
+          wmmlib.sys_job(hs, "sys", 0, 2, "l1,B0,c0,l2,B1"), wmmlib.sys_job(hs, "sys", 0, 2, "R0", "l1,R0"), wmmlib.sys_job(hs, "sys", 0, 3, "R0", "R0"), wmmlib.sys_job(hs, "sys", 0, 2, "l1,B0,x0"),
+          # two threads create / get the same logger name at once: one logger, the same for both, the unused sink destroyed
+          wmmlib.sys_job(hs, "sys", 0, 0, "C0", "C0"), wmmlib.sys_job(hs, "sys", 1, 1, "C0,L1", "C0")]
     if not q:
         sj += [wmmlib.sys_job(hs, "sys", 1, 1, "l1,B0", "l1", deadline=1500), wmmlib.sys_job(hs, "sys", 1, 2, "l1,R0", "l1,R0", deadline=1500),
                wmmlib.sys_job(hs, "sys", 0, 3, "l1,B0,c0,l2,B1,c0,l3", deadline=1500), wmmlib.sys_job(hs, "sys", 1, 1, "B0", "l1,B0", deadline=1500)]
